@@ -23,7 +23,7 @@ CHECKS = {
         "automaton of the RFC production (all 20 types, words of every length) and checks equal verdicts in every product "
         "state. The compiled validators and every construction route (new, owned new, TryFrom, FromStr, from_vec, serde "
         "borrowed/owned over str/bytes, serde_json) are bound to that DFA by a transition cover of the product automaton "
-        "replayed through the real code, plus every string of bounded length over a boundary alphabet (garbage included).",
+        "replayed through the real code, plus every string of bounded length over a boundary alphabet (garbage included). Direction B: random long references, near misses, IPv6/IPv4 shapes and ill-formed UTF-8 byte strings go through the real parsers and the recorded verdicts are judged by TLC (Trace_Events).",
         "DESIGN.md section 6, C01",
         "TLA+ spec + TLC: complete product-automaton model checking (DFA x regex derivatives); TLC-generated "
         "transition-cover and bounded-exhaustive cases replayed into the real parsers",
@@ -34,7 +34,7 @@ CHECKS = {
         "TLC enumerates exactly the valid (I)RI-references of bounded length over a delimiter-rich alphabet by walking the "
         "derivative automaton, checks the design theorems of the RFC 3986 section 3 decomposition on each (recomposition, "
         "component membership, scheme <=> full URI) and prints each with its decomposition; the real accessors and parts() of all "
-        "four types, borrowed and owned, are compared with it, each returned component re-validated, recomposition = text.",
+        "four types, borrowed and owned, are compared with it, each returned component re-validated, recomposition = text. Long structured references are composed from component vocabularies (MC_Compose), and the components reported for random long multi-byte references are judged by TLC (direction B).",
         "DESIGN.md section 6, C02", "TLA+ spec + TLC: exhaustive enumeration of the valid language within a bound with the spec "
         "as oracle; cases replayed into the real accessors"),
     "C03": mc(
@@ -45,19 +45,19 @@ CHECKS = {
         "The editor is a TLA+ state machine (spec/Editor.tla); TLC explores every text reachable within a length bound with "
         "every mutator and argument of the vocabularies, proves the SPECIFIED editor closed under well-formedness, and prints "
         "every edge; each edge is replayed from its source text on both families (no panic, UTF-8, re-parse as the same type). "
-        "Handle sessions (hidden window state) are covered as whole behaviours of bounded depth.",
+        "Handle sessions (hidden window state) are covered as whole behaviours of bounded depth. Direction B: random 30-40 call histories on long multi-byte buffers (with arguments the checked constructors must refuse) and 5-40 call sessions through one handle are recorded from the real code and every call is judged by TLC (Trace_Events, stateful Trace_Sessions).",
         "DESIGN.md section 6, C04", "TLA+ spec + TLC: reachability over the editor state graph; every edge and handle "
         "behaviour replayed into the real mutators"),
     "C05": mc(
         "Setter edges of the same state graph: the spec fixes the resulting text (disambiguations R1-R3 mandatory exactly when "
         "needed); TLC checks on the spec that the three rules are sufficient (result re-parses to the intended record) and the "
-        "frame conditions; the real setters must produce a text of the (mostly singleton) admissible set.",
+        "frame conditions; the real setters must produce a text of the (mostly singleton) admissible set. Direction B: setter calls of random long histories are judged by TLC from the implementation's own previous text.",
         "DESIGN.md section 6, C05", "TLA+ spec + TLC: action-level frame/sufficiency assertions on the model; setter edges replayed"),
     "C06": mc(
         "All (base, reference) pairs of component vocabularies covering every 5.2.2 branch with dot/empty/colon segments, plus "
         "the 42 examples printed in RFC 3986 5.4 (checked by TLC against the spec). TLC checks target has a scheme, validity, "
         "restricted idempotence, and prints the admissible result set (singleton wherever the RFC fixes the text); resolved / "
-        "into_resolved / resolve, both families, must agree and lie in it; base unchanged.",
+        "into_resolved / resolve, both families, must agree and lie in it; base unchanged. References beyond 512 bytes and bases with escaped dots are explicit cases; in-place resolve calls of random histories are judged by TLC (direction B).",
         "DESIGN.md section 6, C06", "TLA+ spec + TLC: bounded-exhaustive pairs with the RFC 5.2 operators as oracle; replay"),
     "C07": mc(
         "Values of every comparable type composed from vocabularies built to collide (percent-encoded vs literal, dot segments, "
@@ -72,17 +72,17 @@ CHECKS = {
     "C09": mc(
         "All paths of bounded segment count over {'', a, ., .., b:c, %2e, e-acute}: TLC proves Rfc524 = stack walk on every absolute "
         "path, no dots left, admissible renderings exist/keep absoluteness/are fixed points/leave the context's other components; "
-        "normalized_segments, normalized() and in-place normalize (stand-alone and in 6 reference contexts) compared with them.",
+        "normalized_segments, normalized() and in-place normalize (stand-alone and in 6 reference contexts) compared with them. Paths beyond 16 segments and beyond 512 bytes are part of the model; paths of 70 kB - 1 MB are judged structurally by TLC (fixed point of normalisation, theorem checked on the bounded model).",
         "DESIGN.md section 6, C09", "TLA+ spec + TLC: exhaustive paths within a bound, theorems on the spec, replay"),
     "C10": mc(
         "Behaviours of one path handle: 6 contexts x initial paths x all call sequences of bounded depth over push/pop/clear/"
         "symbolic_push/symbolic_append/normalize; the model state is the abstract (absoluteness, segment list), each step carries "
         "the admissible views; the handle's Deref after each call and the buffer after drop are compared; behaviours fork where "
-        "the abstract value depends on the rendering chosen and a group fails only if every branch fails.",
+        "the abstract value depends on the rendering chosen and a group fails only if every branch fails. Direction B: sessions of 5-40 calls through ONE handle on long multi-byte paths are validated by the stateful trace specification Trace_Sessions, which carries every segment list consistent with the views observed so far.",
         "DESIGN.md section 6, C10", "TLA+ spec + TLC: all behaviours of bounded depth of the handle state machine replayed step by step"),
     "C11": mc(
         "Behaviours of one authority handle with the window modelled in the spec: TLC checks window coherence, validity and frames "
-        "after every call; exact handle view, sub-component reads and whole text after each call are compared.",
+        "after every call; exact handle view, sub-component reads and whole text after each call are compared. Direction B: sessions of 5-40 calls through ONE authority handle (respelled values, user infos beyond any inline buffer) are validated by the stateful trace specification with the window carried in the spec.",
         "DESIGN.md section 6, C11", "TLA+ spec + TLC: all behaviours of bounded depth replayed; window-coherence invariant"),
     "C12": mc(
         "Two-cursor iterator state machine; every interleaving of next/next_back two calls past exhaustion on every path of the "
@@ -121,7 +121,7 @@ CHECKS = {
         "DESIGN.md section 6, C19", "TLA+ spec + TLC: bounded-exhaustive token strings with Pct/Utf8 spec as oracle; replay"),
     "C20": mc(
         "Byte ranges of every component computed by spec/Ranges.tla (ordered, disjoint, inside the input: checked by TLC) vs "
-        "pointer offsets of the returned slices, allocation delta 0 (counting allocator) for parse + accessors + iteration.",
+        "pointer offsets of the returned slices, allocation delta 0 (counting allocator) for parse + accessors + iteration. Paths and iterators (up to 33 segments) and inputs of up to 1 MB are included: allocation delta 0 and ranges tiling the input, judged by TLC structurally.",
         "DESIGN.md section 6, C20", "TLA+ spec + TLC: ranges from the spec on every enumerated text; pointer/alloc observations replayed",
         TRUST + " The counting #[global_allocator] of the harness."),
 }
